@@ -66,8 +66,14 @@ pub fn gen_config(rng: &mut Rng, o: &BenchOpts) -> Config {
         threads,
         chan_mask: rng.below(8) as u8,
         search_rounds: rng.below(4) as u8,
-        // A start time with non-zero nanoseconds, up to ~3 simulated years.
-        t0: rng.below(100_000_000) * 1_000_000_007 % 100_000_000_000_000_000 + rng.below(1_000_000_000),
+        // A start time with non-zero nanoseconds within ~3 simulated years around the epoch
+        // (see `node::EPOCH_OFFSET_NS`); 4 % start a few units before the epoch so that the run
+        // crosses it.
+        t0: if rng.pct(4) {
+            crate::node::EPOCH_OFFSET_NS - *rng.pick(&[1u64, 2, 7, 1_000, 2_999_999_811, 7_200_000_000_000])
+        } else {
+            rng.below(100_000_000) * 1_000_000_007 % 100_000_000_000_000_000 + rng.below(1_000_000_000)
+        },
         clock: vec![],
         tolerance: None,
         timeout_set: false,
